@@ -395,6 +395,9 @@ func (j *jsonReader) BigInteger(tag int) (*big.Int, error) {
 		if err != nil {
 			return nil, err
 		}
+		if len(bytes) == 0 {
+			return nil, Errorf("invalid big integer value %q", val)
+		}
 		return bytesToBigInt(bytes), j.Next()
 	default:
 		return nil, Errorf("invalid big integer value %q", val)
